@@ -310,6 +310,101 @@ theorem executable_implies_outcome_passed_reachable {ext : Ext} {fuel : Nat} {w 
     ∃ p, w.flex.core.proposals.get? id = some p ∧ Outcome p (ballotsOf w.flex.core id) b' = .ok .passed :=
   executable_implies_outcome_passed hr.reachableAt hb (fun p hp => (premise_reachable hr hp (hc p hp)).1) h
 
+/-! ## Execute succeeds ⇒ the Yes share meets the threshold in exact arithmetic -/
+
+/-- **"Never executable with a Yes share below its threshold", exact arithmetic, inside the premise** (clause g):
+whenever Execute succeeds at or after the block of the last transaction, the recorded Yes weight is positive and the
+configured rule holds for the recorded ballots in exact cross-multiplied arithmetic (every completion before expiry,
+the recorded ballots after) — exactly for thresholds with at most 9 decimals, within one vote for 18-digit decimals. -/
+theorem execute_ok_implies_exact_threshold {ext : Ext} {fuel : Nat} {w : World} {b : Block} (hr : ReachableAt ext fuel w b)
+    {b' : Block} (hb : C04.later b b') {g : Cw4Group.State} {self snd : Addr} {funds : List Coin} {id : Nat}
+    (hprem : ∀ p, w.flex.core.proposals.get? id = some p → C04.Premise (ballotTally p (ballotsOf w.flex.core id)))
+    (h : (Cw3Flex.execute w.flex g self b' snd funds (.execute id)).isOk = true) :
+    ∃ p, w.flex.core.proposals.get? id = some p ∧ 0 < sumK .yes (ballotsOf w.flex.core id) ∧
+      CertainBy C04.laxPasses p.threshold p.totalWeight (tallyOf (ballotsOf w.flex.core id)) (p.expires.isExpired b') ∧
+      (C04.nineDecimals p.threshold →
+        CertainBy C04.exactPasses p.threshold p.totalWeight (tallyOf (ballotsOf w.flex.core id)) (p.expires.isExpired b')) := by
+  obtain ⟨p, hp, hout⟩ := executable_implies_outcome_passed hr hb hprem h
+  exact ⟨p, hp, outcome_passed_exact (hprem p hp) hout⟩
+
+open CwPlus.Props.C06Flex in
+/-- **… with the premise discharged from the history**: on every `ReachableSnap` history, for a proposal whose `Propose`
+was not preceded by a group write in its own block.  (Without the guard false: `passed_justified_counterexample`.) -/
+theorem execute_ok_implies_exact_threshold_reachable {ext : Ext} {fuel : Nat} {w : World} {b : Block}
+    (hr : ReachableSnap ext fuel w b) {b' : Block} (hb : C04.later b b') {g : Cw4Group.State} {self snd : Addr}
+    {funds : List Coin} {id : Nat}
+    (hc : ∀ p, w.flex.core.proposals.get? id = some p → CleanStart w.log id p.startHeight)
+    (h : (Cw3Flex.execute w.flex g self b' snd funds (.execute id)).isOk = true) :
+    ∃ p, w.flex.core.proposals.get? id = some p ∧ 0 < sumK .yes (ballotsOf w.flex.core id) ∧
+      CertainBy C04.laxPasses p.threshold p.totalWeight (tallyOf (ballotsOf w.flex.core id)) (p.expires.isExpired b') ∧
+      (C04.nineDecimals p.threshold →
+        CertainBy C04.exactPasses p.threshold p.totalWeight (tallyOf (ballotsOf w.flex.core id)) (p.expires.isExpired b')) :=
+  execute_ok_implies_exact_threshold hr.reachableAt hb (fun p hp => (premise_reachable hr hp (hc p hp)).1) h
+
+open CwPlus.Props.C06Flex in
+/-- A stored Passed read in exact arithmetic, premise discharged (`passed_justified_reachable` × C04). -/
+theorem passed_justified_exact_reachable {ext : Ext} {fuel : Nat} {w : World} {b : Block} (hr : ReachableSnap ext fuel w b)
+    {id : Nat} {p : Proposal} (hp : w.flex.core.proposals.get? id = some p) (hs : p.status = .passed)
+    (hc : CleanStart w.log id p.startHeight) {b' : Block} (hb : C04.later b b') :
+    0 < sumK .yes (ballotsOf w.flex.core id) ∧
+    CertainBy C04.laxPasses p.threshold p.totalWeight (tallyOf (ballotsOf w.flex.core id)) (p.expires.isExpired b') ∧
+    (C04.nineDecimals p.threshold →
+      CertainBy C04.exactPasses p.threshold p.totalWeight (tallyOf (ballotsOf w.flex.core id)) (p.expires.isExpired b')) :=
+  outcome_passed_exact (premise_reachable hr hp hc).1 (passed_justified_reachable hr hp hs hc hb)
+
+/-! ## the admit-iff theorems for every state satisfying `Inv` (hence also mid-dispatch, for re-entrant self-calls) -/
+
+theorem tally_eq_ballotTally_inv {s : State} (hi : Inv s) {id : Nat} {p : Proposal}
+    (hp : s.core.proposals.get? id = some p) (ho : p.status = .open) :
+    p.tally = ballotTally p (ballotsOf s.core id) := by
+  have := hi.wf.tally id p hp
+  simp [Proposal.tally, ballotTally, ho, this]
+
+/-- **Execute is admitted iff Passed and authorised, for every state satisfying `Inv`** — in particular the
+intermediate states inside `dispatch` (`dispatch_inv` preserves `Inv`), so re-entrant `selfExecute` is covered. -/
+theorem execute_admits_iff_outcome_inv {s : State} (hi : Inv s) (g : Cw4Group.State)
+    (self : Addr) (blk : Block) (snd : Addr) (funds : List Coin) (id : Nat) :
+    (Cw3Flex.execute s g self blk snd funds (.execute id)).isOk = true ↔
+      ∃ p, s.core.proposals.get? id = some p ∧ authorize s.cfg g snd = true ∧
+        (p.status = .passed ∨ (p.status = .open ∧ Outcome p (ballotsOf s.core id) blk = .ok .passed)) := by
+  rw [CwPlus.Props.C05Flex.execute_ok_iff]
+  constructor
+  · rintro ⟨p, hp, hst, ha⟩
+    refine ⟨p, hp, ha, ?_⟩
+    by_cases ho : p.status = .open
+    · right; refine ⟨ho, ?_⟩
+      simp only [Outcome, ← tally_eq_ballotTally_inv hi hp ho]; exact hst
+    · left
+      have : Cw3.currentStatus p.tally blk = .ok p.status := cs_of_ne_open (t := p.tally) ho
+      simp only [Proposal.currentStatus] at hst
+      rw [this] at hst
+      exact (Except.ok.inj hst)
+  · rintro ⟨p, hp, ha, h | ⟨ho, h⟩⟩
+    · refine ⟨p, hp, ?_, ha⟩
+      have : Cw3.currentStatus p.tally blk = .ok p.status := cs_of_ne_open (t := p.tally) (by simp [Proposal.tally, h])
+      simp only [Proposal.currentStatus, this, h]
+    · refine ⟨p, hp, ?_, ha⟩
+      simp only [Outcome, ← tally_eq_ballotTally_inv hi hp ho] at h; exact h
+
+/-- **Close is admitted iff expired and not Passed, for every state satisfying `Inv`** (also mid-dispatch). -/
+theorem close_admits_iff_outcome_inv {s : State} (hi : Inv s) (g : Cw4Group.State)
+    (self : Addr) (blk : Block) (snd : Addr) (funds : List Coin) (id : Nat) :
+    (Cw3Flex.execute s g self blk snd funds (.close id)).isOk = true ↔
+      ∃ p, s.core.proposals.get? id = some p ∧ p.status = .open ∧ p.expires.isExpired blk = true ∧
+        Outcome p (ballotsOf s.core id) blk = .ok .rejected := by
+  rw [CwPlus.Props.C05Flex.close_ok_iff hi]
+  constructor
+  · rintro ⟨p, st, hp, ho, hst, hne, hexp⟩
+    refine ⟨p, hp, ho, hexp, ?_⟩
+    simp only [Outcome, ← tally_eq_ballotTally_inv hi hp ho]
+    have hst' : Cw3.currentStatus p.tally blk = .ok st := hst
+    rcases expired_status (t := p.tally) (by simp [Proposal.tally, ho]) (by simpa [Proposal.tally] using hexp) hst' with e | e
+    · exact absurd e hne
+    · subst e; exact hst'
+  · rintro ⟨p, hp, ho, hexp, hout⟩
+    refine ⟨p, .rejected, hp, ho, ?_, by simp, hexp⟩
+    simp only [Outcome, ← tally_eq_ballotTally_inv hi hp ho] at hout; exact hout
+
 /-! ## never executable without Yes weight (D1 fixed) -/
 
 /-- Invariant: every proposal stored Passed or Executed has positive Yes weight in its tally. -/
@@ -373,6 +468,18 @@ theorem never_executable_without_yes {ext : Ext} {fuel : Nat} {w : World} (hr : 
     (h : (Cw3Flex.execute w.flex g self blk snd funds (.execute id)).isOk = true) : 0 < sumK .yes (ballotsOf w.flex.core id) := by
   obtain ⟨hi, hy⟩ := reachable_yes hr
   obtain ⟨p, hp, hst, _⟩ := (CwPlus.Props.C05Flex.execute_ok_iff w.flex g self blk snd funds id).mp h
+  have := cs_passed_yes (t := p.tally) hst (Or.inl rfl) (fun h => hy id p hp h)
+  have ht := hi.wf.tally id p hp
+  simp only [Proposal.tally, ht, tallyOf] at this
+  exact this
+
+/-- **Never executable without Yes weight, for every state satisfying `YesInv`** (`yes_step`: every handler call
+preserves `YesInv`, so it holds mid-dispatch too). -/
+theorem never_executable_without_yes_inv {s : State} (hy : YesInv s) {g : Cw4Group.State}
+    {self : Addr} {blk : Block} {snd : Addr} {funds : List Coin} {id : Nat}
+    (h : (Cw3Flex.execute s g self blk snd funds (.execute id)).isOk = true) : 0 < sumK .yes (ballotsOf s.core id) := by
+  obtain ⟨hi, hy⟩ := hy
+  obtain ⟨p, hp, hst, _⟩ := (CwPlus.Props.C05Flex.execute_ok_iff s g self blk snd funds id).mp h
   have := cs_passed_yes (t := p.tally) hst (Or.inl rfl) (fun h => hy id p hp h)
   have ht := hi.wf.tally id p hp
   simp only [Proposal.tally, ht, tallyOf] at this
@@ -508,6 +615,15 @@ example : (∀ p, Ex.finalJ.flex.core.proposals.get? 1 = some p → p.status = .
 
 example : ((Ex.finalJ.flex.core.proposals.get? 1).map fun p => (p.status, p.startHeight)) = some (.passed, 10) ∧
     ((Ex.finalJ.flex.core.proposals.get? 2).map fun p => (p.status, p.startHeight)) = some (.rejected, 11) := by decide
+
+/-- non-vacuity of `execute_ok_implies_exact_threshold_reachable` and of the `…_inv` forms: in `Ex.finalJ` (a
+`ReachableSnap` world whose state satisfies `Inv` and `YesInv`) Execute of proposal 1 succeeds at block 16, Close is
+refused -/
+example : (Cw3Flex.execute Ex.finalJ.flex Ex.finalJ.group "ms" ⟨16, 0⟩ "x" [] (.execute 1)).isOk = true ∧
+    (Cw3Flex.execute Ex.finalJ.flex Ex.finalJ.group "ms" ⟨16, 0⟩ "x" [] (.close 1)).isOk = false ∧
+    Inv Ex.finalJ.flex ∧ YesInv Ex.finalJ.flex :=
+  ⟨by decide, by decide, reachable_inv exJ_reachableSnap.reachableAt.reachable,
+    reachable_yes exJ_reachableSnap.reachableAt.reachable⟩
 
 /-! ### without the premise the sticky-status statements are FALSE of the code (consequence of D3) -/
 
